@@ -19,17 +19,25 @@ type cfg struct {
 	T     float64
 	P     uint32
 	CF    uint32
-	I     uint32 // StatIntervalInMs: 0 (the default 1000 ms) or a shorter interval; the threshold is per interval
-	Front bool   // an inert direct/reject rule is listed before the warm-up rule
-	Thr   bool   // control behaviour throttling (no queueing) instead of reject: the warm-up threshold paces the requests
-	Pre   int    // family of the rule the resource carried before (0 = none): the warm-up rule replaces it by a reload
+	I     uint32     // StatIntervalInMs: 0 (the default 1000 ms) or a shorter interval; the threshold is per interval
+	Front bool       // an inert direct/reject rule is listed before the warm-up rule
+	Thr   bool       // control behaviour throttling (no queueing) instead of reject: the warm-up threshold paces the requests
+	Pre   int        // family of the rule the resource carried before (0 = none): the warm-up rule replaces it by a reload
+	SC    hx.StatCfg // process-wide statistic configuration (zero value: the default)
 }
 
 func (c cfg) iv() int {
 	if c.I == 0 {
-		return 1000
+		return int(c.stat().MI) // the default metric's interval of the process-wide configuration (1000 ms unless configured)
 	}
 	return int(c.I)
+}
+
+func (c cfg) stat() hx.StatCfg {
+	if c.SC == (hx.StatCfg{}) {
+		return hx.DefaultStat
+	}
+	return c.SC
 }
 
 func (c cfg) cf() float64 {
@@ -64,7 +72,7 @@ func predecessor(c cfg) *flow.Rule {
 }
 
 func loadWarm(t *rapid.T, c cfg) {
-	hx.Reset(hx.Epoch)
+	hx.ResetCfg(hx.Epoch, c.stat(), nil)
 	if p := predecessor(c); p != nil {
 		if _, err := flow.LoadRules([]*flow.Rule{p}); err != nil || len(flow.GetRulesOfResource("w")) != 1 {
 			t.Fatalf("predecessor rule %+v not accepted: %v", p, err)
@@ -107,6 +115,18 @@ func demand(startSec, secs, perSec int) []int {
 	return per
 }
 
+// drawStat: one case in three runs under a legal non-default process-wide statistic configuration.
+func drawStat(t *rapid.T) hx.StatCfg {
+	if k := rapid.IntRange(0, 3*len(hx.StatCfgs)).Draw(t, "statConfig"); k < len(hx.StatCfgs) {
+		// (the demand phases of this check start on whole seconds: configurations whose array bucket is longer than a second
+		// would make the statistic windows tumble out of step with them)
+		if sc := hx.StatCfgs[k]; sc.GI/sc.GS <= 1000 {
+			return sc
+		}
+	}
+	return hx.DefaultStat
+}
+
 func drawCfg(t *rapid.T) cfg {
 	T := rapid.SampledFrom([]float64{0, 0.5, 1, 1.5, 2, 3, 5, 7.5, 10, 37.5, 100, 1000}).Draw(t, "T")
 	maxP := 30
@@ -118,7 +138,8 @@ func drawCfg(t *rapid.T) cfg {
 	}
 	return cfg{T: T, P: uint32(rapid.IntRange(1, maxP).Draw(t, "P")), CF: uint32(rapid.SampledFrom([]int{0, 2, 3, 5, 10}).Draw(t, "CF")),
 		I:   uint32(rapid.SampledFrom([]int{0, 0, 0, 0, 1000, 500, 250, 2000}).Draw(t, "statIntervalMs")),
-		Pre: rapid.SampledFrom([]int{0, 0, 0, 1, 2, 3, 4, 5, 6}).Draw(t, "predecessor"), Front: rapid.IntRange(0, 3).Draw(t, "inertRuleInFront") == 0}
+		Pre: rapid.SampledFrom([]int{0, 0, 0, 1, 2, 3, 4, 5, 6}).Draw(t, "predecessor"), Front: rapid.IntRange(0, 3).Draw(t, "inertRuleInFront") == 0,
+		SC: drawStat(t)}
 }
 
 func TestWarmUpEnvelope(t *testing.T) {
